@@ -175,3 +175,26 @@ SPECS["C13"] = [
 IMPORTS["C13"] = ["ArimModel.Src"]
 USES["C13"] = ["C02", "C01"]
 USES["C08"] = ["C10", "C13"]
+
+# ---- C02: the kernels of the robust aggregations: the scratch array of delayed samples handed to geomed / huber_m_estimate
+ROB_SOLVER = ("solver", F([L(D)], D))
+def _rob_bind(call, lanczos=False):
+    b = {call: ("(solver datapoints, (0 : Nat))", ("T", (D, N))), "res.view(np.complex128)[0]": ("res", D)}
+    if lanczos:
+        b["lanczos_interpolation"] = ("(fun t x a => lanczos_interpolation o d t x a numsamples)", F([K, A(D, 1), N], D))
+    return b
+GEOMED_CALL = "geomed.geomed(datapoints.view(np.float64).reshape((numtimetraces, 2)))"
+HUBER_CALL = "huber.huber_m_estimate(datapoints.view(np.float64).reshape((numtimetraces, 2)), tau)"
+SPECS["C02"] += [
+    FuncSpec(DAS, "_delay_and_sum_noamp_median_nearest", "das_noamp_median_nearest",
+             DAS_COMMON + [("invdt", K), ("t0", K), ("fillvalue", D), ROB_SOLVER] + DAS_SHAPES,
+             locals={"datapoints": L(D)}, skip=DAS_SKIP, cell=DAS_CELL, bind=_rob_bind(GEOMED_CALL),
+             doc="`solver` stands for `geomed.geomed` on the (n, 2) real view of the scratch array of delayed samples"),
+    FuncSpec(DAS, "_delay_and_sum_noamp_median_lanczos", "das_noamp_median_lanczos",
+             DAS_COMMON + [("invdt", K), ("t0", K), ("fillvalue", D), ("a", N), ROB_SOLVER] + DAS_SHAPES,
+             locals={"datapoints": L(D)}, skip=DAS_SKIP, cell=DAS_CELL, bind=_rob_bind(GEOMED_CALL, True)),
+    FuncSpec(DAS, "_delay_and_sum_noamp_huber_lanczos", "das_noamp_huber_lanczos",
+             DAS_COMMON + [("invdt", K), ("t0", K), ("fillvalue", D), ("a", N), ("tau", K), ROB_SOLVER] + DAS_SHAPES,
+             locals={"datapoints": L(D)}, skip=DAS_SKIP, cell=DAS_CELL, bind=_rob_bind(HUBER_CALL, True),
+             doc="`solver` stands for `huber_m_estimate(., tau)`"),
+]
